@@ -328,6 +328,33 @@ func ruleRef8(c *Ctx) []*Ob {
 			continue
 		}
 		fn := c.fname(f)
+		// a hand-out: an exported function / method, or a helper whose result some caller returns in turn; an
+		// unexported helper whose result its callers only use (a lookup extracted from a loop body) lends, it
+		// does not hand out
+		if !isExportedRoot(f) && f.Parent() == nil {
+			handedOn := false
+			for _, cs := range c.Callers(f) {
+				v, isV := cs.Instr.(ssa.Value)
+				if !isV {
+					continue
+				}
+				eachInstr(cs.Instr.Parent(), func(j ssa.Instruction) {
+					if r, isR := j.(*ssa.Return); isR {
+						for _, res := range r.Results {
+							backSlice(res, func(w ssa.Value) bool {
+								if w == v {
+									handedOn = true
+								}
+								return false
+							})
+						}
+					}
+				})
+			}
+			if !handedOn {
+				continue
+			}
+		}
 		eachInstr(f, func(i ssa.Instruction) {
 			r, ok := i.(*ssa.Return)
 			if !ok {
